@@ -225,6 +225,41 @@ def _history_job(args):
             ev.append({"tid": tid, "ev": "Call", "cls": name, "step": step, "p": p,
                        "same_as_fresh": d == fresh_cache[p], "dict_unchanged": _same_dict(cfg0, _snapshot(obj)),
                        "args_unchanged": bool(args_ok), "repeat_same": d2 == d})
+    # ---- usage patterns of one configuration (each compared with what a FRESH object in the same situation returns)
+    tidu = ci * 1000 + 900
+    p1, p2 = 1, min(2, len(pool))
+    def fresh_after(setup):
+        o = factory()
+        setup(o)
+        return _call(o, method, pool[p2 - 1], 1000 + p2)[0]
+    def retune(o):
+        # the caller changes documented options between calls: they take effect like on a fresh object
+        if isinstance(getattr(o, "tol", None), float):
+            o.tol = o.tol * 100.0
+        if isinstance(getattr(o, "max_iter", None), int):
+            o.max_iter = o.max_iter + 1
+    pats = []
+    try:
+        a = factory()
+        _call(a, method, pool[p1 - 1], 1000 + p1)
+        pats.append(("deepcopy-after-a-call", _call(copy.deepcopy(a), method, pool[p2 - 1], 1000 + p2)[0], fresh_after(lambda o: None)))
+        try:
+            b = pickle.loads(pickle.dumps(a))
+            pats.append(("pickle-round-trip-after-a-call", _call(b, method, pool[p2 - 1], 1000 + p2)[0], fresh_after(lambda o: None)))
+        except Exception:
+            pass                                          # not picklable: nothing to compare
+        c = factory()
+        _call(c, method, pool[p1 - 1], 1000 + p1)
+        retune(c)
+        pats.append(("options-changed-between-calls", _call(c, method, pool[p2 - 1], 1000 + p2)[0], fresh_after(retune)))
+        d1, d2 = factory(), factory()
+        _call(d1, method, pool[p1 - 1], 1000 + p1)
+        _call(d2, method, pool[p2 - 1], 1000 + p2)
+        pats.append(("two-objects-used-alternately", _call(d1, method, pool[p2 - 1], 1000 + p2)[0], fresh_after(lambda o: None)))
+    except (ValueError, np.linalg.LinAlgError):
+        pats = []
+    for k, (pat, got, want) in enumerate(pats):
+        ev.append({"tid": tidu + k, "ev": "Usage", "cls": name, "pattern": pat, "same": got == want})
     return ev
 
 
@@ -935,12 +970,12 @@ def run(ctx, replay=None):
         if key in seen:
             continue
         seen.add(key)
-        cls = {"Construct": "history", "Mutation": "mutation-table", "Seeded": "seeded", "Style": "import-style", "Layout": "memory-layout", "Stale": "in-place-update-history", "Returned": "caller-overwrites-result", "Related": "related-arguments-history"}[head["ev"]]
+        cls = {"Usage": "usage-pattern:" + str(head.get("pattern")), "Construct": "history", "Mutation": "mutation-table", "Seeded": "seeded", "Style": "import-style", "Layout": "memory-layout", "Stale": "in-place-update-history", "Returned": "caller-overwrites-result", "Related": "related-arguments-history"}[head["ev"]]
         ctx.fail(fn, clause, cls, {"events": es[:5]})
     for e in events:
         if e["ev"] != "Construct":
             ctx.case((e["tid"], e.get("step"), e["ev"]))
-    ctx.replays = sum(1 for e in events if e["ev"] in ("Call", "Mutation", "Seeded", "Style", "Layout", "Stale", "Returned", "Related"))
+    ctx.replays = sum(1 for e in events if e["ev"] in ("Call", "Mutation", "Seeded", "Style", "Layout", "Stale", "Returned", "Related", "Usage"))
     ctx.count("SameAsFreshObject", sum(1 for e in events if e["ev"] == "Call"))
     ctx.count("ArgumentsUnchanged", sum(1 for e in events if e["ev"] in ("Call", "Mutation")))
     ctx.sample({"direction": "F", "history": [e for e in events if e["ev"] in ("Construct", "Call")][:4]})
